@@ -307,6 +307,7 @@ def run(chk):
     _jumppair_rule(chk, prog)
     _alias_rule(chk, prog)
     _order_rule(chk, prog)
+    _unary_rule(chk, prog, boot)
 
 
 def _jumppair_rule(chk, prog):
@@ -726,3 +727,54 @@ def _movopt_rule(chk, prog):
                           "program should produce disappears" % (op, what.text()[:50]))
         else:
             chk.ok(rule, "%s is a pure, non-raising write: safe to delete when unused" % op)
+
+
+def _unary_rule(chk, prog, boot):
+    """The one-argument form of a variadic operator is `identity op x` - except where the compiler's inlined form
+    (opreduce) special-cases an opcode: (- x) is emitted as x * -1.  The generic body built by templatize_varop is what
+    apply, splices and first-class use run, so it must make the same exception with the same instruction, otherwise the
+    two routes disagree (the sign of zero, which method a table or abstract operand receives, error cases)."""
+    rule = "C15-UNARY"
+    chk.rule(rule, "the compiler's one-argument special cases of variadic operators are mirrored, with the same instruction, in the generic function bodies")
+
+    def special_cases(fn, emit_pred):
+        out = {}
+        for x in fn.nodes:
+            if x.k != "if" or not x.kids or x.kids[0] is None:
+                continue
+            c = strip_casts(x.kids[0])
+            if c.k == "bin" and c.op == "==" and is_ref(strip_casts(c.kids[0]), "op"):
+                opname = enum_name(c.kids[1])
+                if not opname:
+                    continue
+                used = set()
+                for y in x.kids[1].walk():
+                    if emit_pred(y):
+                        for z in y.walk():
+                            nm = enum_name(z) if z.k == "ref" else None
+                            if nm and nm.startswith("JOP_"):
+                                used.add(nm)
+                if used:
+                    out[opname] = used
+        return out
+    opr = prog.need_func("opreduce", prog.tus["cfuns.c"])
+    tv = boot.need_func("templatize_varop", boot.tus["corelib.c"])
+    chk.analysed(opr)
+    chk.analysed(tv)
+    inline = special_cases(opr, lambda y: y.k == "call" and (y.callee or "").startswith("janetc_emit"))
+    generic = special_cases(tv, lambda y: y.k == "asg")
+    if not inline:
+        raise AnalysisBroken("opreduce: no one-argument special case found (the (- x) -> x * -1 case was confirmed by hand)")
+    for opname in sorted(set(inline) | set(generic)):
+        chk.instance(rule)
+        a, b = inline.get(opname, set()), generic.get(opname, set())
+        if a == b:
+            chk.ok(rule, "%s: inline and generic one-argument forms both use %s" % (opname, ", ".join(sorted(a))))
+        else:
+            chk.violation(rule, "corelib.c" if a else "cfuns.c", "templatize_varop" if a else "opreduce", "unary:%s" % opname,
+                          (tv if a else opr).loc,
+                          "the one-argument form of %s is special-cased %s (%s) but %s (%s): (op x) computed inline and through apply / a "
+                          "first-class call differ - for `-`: (/ 1 (- 0)) is -inf inline and inf through apply" % (
+                              opname, "by the compiler" if a else "in the generic body", ", ".join(sorted(a or b)),
+                              "the generic body does not use the same instruction" if a else "the compiler does not",
+                              ", ".join(sorted(b or a)) or "identity op x"))
